@@ -98,6 +98,18 @@ theorem C13_facade_findNumbers (cc : CharClasses) (l : Language) (sep : Tok → 
       findNumbers { lang := concrete l, cc := cc, sep := sep, thrLt := thr } toks := by rw [C13_facade]
 
 
+/-- the lookup is case-sensitive: a code containing an upper-case letter resolves to nothing -/
+theorem C13_lookup_case_sensitive (c : Word) (h : c.any Char.isUpper = true) : getInterpreterFor c = none := by
+  apply C13_lookup_miss
+  intro l hc; subst hc
+  cases l <;> exact absurd h (by decide)
+
+/-- nor is surrounding whitespace forgiven: a code containing a blank resolves to nothing -/
+theorem C13_lookup_no_blank (c : Word) (h : c.contains ' ' = true) : getInterpreterFor c = none := by
+  apply C13_lookup_miss
+  intro l hc; subst hc
+  cases l <;> exact absurd h (by decide)
+
 /-! non-vacuity -/
 example : getInterpreterFor w!"pt" = some .portuguese := by decide
 example : getInterpreterFor w!"xx" = none := by decide
